@@ -21,7 +21,7 @@ f32 = np.float32
 
 
 def groups(tier, seed):
-    return ["estimate:reparam", "estimate:reinforce", "estimate:overlap", "tight", "grad:reparam", "grad:reinforce", "vi:reparam:2:0.125", "vi:reparam:3:1.0",
+    return ["estimate:reparam", "estimate:reinforce", "estimate:overlap", "estimate:nested", "estimate:nested_overlap", "tight", "grad:reparam", "grad:reinforce", "vi:reparam:2:0.125", "vi:reparam:3:1.0",
             "vi:reinforce:1:0.125", "elbo_vi:2", "mean_field"]
 
 
@@ -44,6 +44,31 @@ def models():
         # score-function family parameterised by (mean, std) directly (keeps the queries polynomial)
         return normal_reinforce(phi[0], phi[1]) @ "z"
     return target, q_reparam, q_reinforce
+
+
+def nested_models():
+    """the same conjugate pair with the latent at a hierarchical address latent/z (merge of nested choice maps)"""
+    from genjax import gen, normal
+    from genjax.adev import normal_reparam
+
+    @gen
+    def prior(l0):
+        return normal(0.0, jnp.exp(l0)) @ "z"
+
+    @gen
+    def target(l0, l):
+        z = prior(l0) @ "latent"
+        x = normal(z * 2.0, jnp.exp(l)) @ "x"
+        return z
+
+    @gen
+    def qz(phi):
+        return normal_reparam(phi[0], jnp.exp(phi[1])) @ "z"
+
+    @gen
+    def q(constraint, phi):
+        return qz(phi) @ "latent"
+    return target, q
 
 
 def ref_objective(z, phi, obs, l0, l, std=None):
@@ -77,7 +102,12 @@ def run_group(g, gid):
         fam = parts[1]
         qf = q_rei if fam == "reinforce" else q_rep
         cfn = (lambda o: {"x": o, "z": o * 3.0}) if fam == "overlap" else (lambda o: {"x": o})
-        T = g.try_trace(f"elbo.estimate [{fam}] traces", lambda phi, o, a, b: make(qf, cfn)(phi, o, a, b).estimate(phi), PHI, obs0, l00, l0)
+        if fam in ("nested", "nested_overlap"):
+            tgt2, q2 = nested_models()
+            cfn = (lambda o: {"x": o, "latent": {"z": o * 3.0}}) if fam == "nested_overlap" else (lambda o: {"x": o})
+            T = g.try_trace(f"elbo.estimate [{fam}] traces", lambda phi, o, a, b: elbo_factory(tgt2, q2, cfn(o), (a, b)).estimate(phi), PHI, obs0, l00, l0)
+        else:
+            T = g.try_trace(f"elbo.estimate [{fam}] traces", lambda phi, o, a, b: make(qf, cfn)(phi, o, a, b).estimate(phi), PHI, obs0, l00, l0)
         if T is None:
             return
         g.ok(f"[{fam}] exactly one site (the variational draw)", len(T.sites) == 1, str([(s.name, s.prim_name) for s in T.sites]))
